@@ -135,11 +135,14 @@ def structural(rng, maxn):
 def weigh(rng, g, style=None):
     """assign positive integer weights; style: unit | ties | wide | pow2 (all subset sums distinct)"""
     n, es = g
-    style = style or rng.choice(["unit", "ties", "ties", "wide", "pow2", "f32tie"])
+    style = style or rng.choice(["unit", "ties", "ties", "wide", "wide", "pow2", "f32tie", "nearmax"])
     if style == "pow2" and len(es) > 40: style = "wide"
     if style == "unit": ws = [1] * len(es)
     elif style == "ties": ws = [rng.randint(1, 4) for _ in es]
     elif style == "wide": ws = [rng.randint(1, 1000) for _ in es]
+    elif style == "nearmax":       # as heavy as the `int` instantiation allows: (m + 4) * sum(w) just below INT_MAX (the proved sufficient precondition, C07_overflow_*)
+        m = max(1, len(es)); W = max(1, (2 ** 31 - 2) // ((m + 4) * m) - 1)
+        ws = [rng.randint(max(1, W // 2), W) for _ in es]
     elif style == "f32tie":        # integers that are distinct as doubles/ints but collide in single precision (2^24 + small offsets)
         ws = [(1 << 24) + rng.randint(0, 6) for _ in es]
     else:
